@@ -35,7 +35,8 @@ Open Scope string_scope.
 Open Scope list_scope.
 
 (* ------------------------------------------------------------------ errors *)
-Inductive err := ETypeError | ERuntime | EKeyError | EFileNotFound | EValueError | EReinterpret | EOther.
+Inductive err := ETypeError | ERuntime | EKeyError | EFileNotFound | EValueError | EReinterpret | EOther
+               | EIsADirectory | EPermission.      (* open(..., "wb") on a directory / in a read-only directory *)
 Inductive res (A : Type) := Ok (a : A) | Raised (e : err).
 Arguments Ok {A} a.
 Arguments Raised {A} e.
@@ -135,7 +136,9 @@ Inductive td :=
 | Leaf (l : leaf)                                  (* only as an entry of a Node *)
 | Node (bs : list nat) (ents : list (string * td)) (* TensorDict: batch size, _tensordict in insertion order *)
 | Lazy (sd : nat) (ms : list td)                   (* LazyStackedTensorDict *)
-| TCls (cls : string) (inner : td)                 (* a tensorclass instance: class name, its _tensordict *)
+| TCls (cls : string) (nt : list (string * payload)) (inner : td)
+                                                   (* a tensorclass instance: class name, its _non_tensordict (the Optional
+                                                      fields left None; any payload in general), its _tensordict *)
 | NData (bs : list nat) (p : payload)              (* NonTensorData *)
 | NStack (items : list td).                        (* NonTensorStack (stack_dim 0) of NonTensorData / NonTensorStack *)
 
@@ -147,7 +150,7 @@ Definition numel (s : list nat) : nat := fold_right Nat.mul 1 s.
 (* type(value).__name__ *)
 Definition cls_name (t : td) : string :=
   match t with
-  | Leaf _ => "Tensor" | Node _ _ => "TensorDict" | Lazy _ _ => "LazyStackedTensorDict" | TCls c _ => c
+  | Leaf _ => "Tensor" | Node _ _ => "TensorDict" | Lazy _ _ => "LazyStackedTensorDict" | TCls c _ _ => c
   | NData _ _ => "NonTensorData" | NStack _ => "NonTensorStack"
   end.
 
@@ -265,6 +268,29 @@ Definition nstack_files (ndim : option nat) (data : payload) (files : list (fnam
     end
   else Ok (fset FMeta (CJson (JObj (head ++ [("data", JStr "pickle.pkl")]))) (fset FPkl (CPickle data) files)).
 
+(* the metadata file of a tensorclass instance (tensorclass.py _memmap_.save_metadata, cls not NonTensorData):
+     metadata = {"_type": str(cls)}; for key, value in _non_tensordict.items(): json-serialisable -> metadata[key], else
+     -> to_pickle[key]; meta.json written; other.pickle written when to_pickle is not empty, REMOVED otherwise *)
+Definition ser_fields (nt : list (string * payload)) : list (string * payload) :=
+  filter (fun kv => is_json_serializable (snd kv)) nt.
+Definition pkl_fields (nt : list (string * payload)) : list (string * payload) :=
+  filter (fun kv => negb (is_json_serializable (snd kv))) nt.
+Fixpoint json_fields (l : list (string * payload)) : option (list (string * json)) :=
+  match l with
+  | [] => Some []
+  | (k, x) :: r => match json_of x, json_fields r with Some a, Some b => Some ((k, a) :: b) | _, _ => None end
+  end.
+Definition tc_meta (c : string) (jl : list (string * json)) : list (string * json) :=
+  fold_left (fun m kv => jset (fst kv) (snd kv) m) jl [("_type", JStr c)].
+Definition tc_files (c : string) (nt : list (string * payload)) (files : list (fname * content)) : res (list (fname * content)) :=
+  match json_fields (ser_fields nt) with
+  | None => Raised ETypeError
+  | Some jl =>
+      let files1 := fset FMeta (CJson (JObj (tc_meta c jl))) files in
+      Ok (match pkl_fields nt with [] => fdel FOther files1 | pk => fset FOther (CPickle (PDict pk)) files1 end)
+  end.
+Definition tc_removes (nt : list (string * payload)) : list fname := match pkl_fields nt with [] => [FOther] | _ => [] end.
+
 Definition reserved (k : string) : bool := String.eqb k "shape" || String.eqb k "device" || String.eqb k "_type".
 Definition lazy_meta (sd n : nat) : list (string * json) :=
   [("_type", JStr "LazyStackedTensorDict"); ("stack_dim", jnat sd); ("num_tensordicts", jnat n)].
@@ -297,9 +323,9 @@ Fixpoint save_over (o : opts) (t : td) (d : dir) {struct t} : res dir :=
                | m :: r => bind (save_over o m (sub_dir (string_of_nat i) subs)) (fun d' => go r (S i) (jset (string_of_nat i) d' subs))
                end) ms 0 subs)
            (fun subs' => Ok (Dir files' subs'))
-  | TCls c inner =>
-      let files' := fset FMeta (CJson (JObj [("_type", JStr c)])) files in
-      bind (save_over o inner (sub_dir "_tensordict" subs)) (fun d' => Ok (Dir files' (jset "_tensordict" d' subs)))
+  | TCls c nt inner =>
+      bind (tc_files c nt files) (fun files' =>
+      bind (save_over o inner (sub_dir "_tensordict" subs)) (fun d' => Ok (Dir files' (jset "_tensordict" d' subs))))
   | NData bs p => bind (ndata_files bs p files) (fun f' => Ok (Dir f' subs))
   | NStack items => bind (nstack_files (stack_ndim t) (tolist t) files) (fun f' => Ok (Dir f' subs))
   end end.
@@ -468,12 +494,33 @@ Definition load_ndata (files : list (fname * content)) (m : list (string * json)
   | None => Ok (NData bs from_meta)
   end.
 
-(* tensorclass _load_memmap on any other registered class *)
-Definition load_tc (c : string) (ds : list (string * res td)) : res td :=
-  match sget "_tensordict" ds with
-  | Some r => bind r (fun inner => Ok (TCls c inner))
-  | None => Raised EValueError
+(* tensorclass _load_memmap on any other registered class: non_tensordict = metadata minus "_type", updated with
+   other.pickle; the tensordict from "_tensordict"; cls._from_tensordict(td, non_tensordict) drops a None whose name is
+   also an entry of the tensordict and refuses (KeyError) any other value under such a name (the field table of the class
+   is not modelled: names outside it are a ValueError there) *)
+Definition tc_check_keys (inner : td) (nt : list (string * payload)) : res (list (string * payload)) :=
+  match inner with
+  | Node _ ents =>
+      (fix go (l : list (string * payload)) : res (list (string * payload)) :=
+         match l with
+         | [] => Ok []
+         | (k, v) :: r =>
+             if smem k ents then match v with PNone => go r | _ => Raised EKeyError end
+             else bind (go r) (fun acc => Ok ((k, v) :: acc))
+         end) nt
+  | _ => Ok nt
   end.
+Definition load_tc (c : string) (files : list (fname * content)) (ds : list (string * res td)) (m : list (string * json)) : res td :=
+  let from_meta := map (fun kv => (fst kv, payload_of_json (snd kv))) (jdel "_type" m) in
+  bind (match fget FOther files with
+        | Some (CPickle (PDict l)) => Ok (fold_left (fun acc kv => jset (fst kv) (snd kv) acc) l from_meta)
+        | Some _ => Raised EOther
+        | None => Ok from_meta
+        end) (fun nt =>
+  match sget "_tensordict" ds with
+  | Some r => bind r (fun inner => bind (tc_check_keys inner nt) (fun nt' => Ok (TCls c nt' inner)))
+  | None => Raised EValueError
+  end).
 
 (* load_memmap: dispatch on metadata["_type"] *)
 Definition load_top (files : list (fname * content)) (ds : list (string * res td)) : res td :=
@@ -485,7 +532,7 @@ Definition load_top (files : list (fname * content)) (ds : list (string * res td
           else if String.eqb c "LazyStackedTensorDict" then load_lazy ds m
           else if String.eqb c "NonTensorStack" then load_nstack files ds m
           else if String.eqb c "NonTensorData" then load_ndata files m
-          else load_tc c ds
+          else load_tc c files ds m
       | Some _ => Raised ERuntime
       | None => Raised EKeyError
       end
@@ -512,7 +559,7 @@ Fixpoint norm (t : td) : td :=
                       match es with [] => [] | (k, x) :: r => (k, norm x) :: go r end) ents in
       Node bs (filter (fun kv => is_leaf (snd kv)) ents' ++ filter (fun kv => negb (is_leaf (snd kv))) ents')
   | Lazy sd ms => Lazy sd ((fix go (l : list td) : list td := match l with [] => [] | x :: r => norm x :: go r end) ms)
-  | TCls c inner => TCls c (norm inner)
+  | TCls c nt inner => TCls c (ser_fields nt ++ pkl_fields nt) (norm inner)   (* json fields first, pickled ones after *)
   | NData bs p => NData bs p
   | NStack items => NStack ((fix go (l : list td) : list td := match l with [] => [] | x :: r => norm x :: go r end) items)
   end.
@@ -522,7 +569,8 @@ Fixpoint nodupb (l : list string) : bool :=
   match l with [] => true | k :: r => negb (existsb (String.eqb k) r) && nodupb r end.
 Definition builtin_cls (c : string) : bool :=
   String.eqb c "TensorDict" || String.eqb c "LazyStackedTensorDict" || String.eqb c "NonTensorData" || String.eqb c "NonTensorStack".
-Definition is_collection (t : td) : bool := match t with Node _ _ | Lazy _ _ | TCls _ _ => true | _ => false end.
+Definition is_collection (t : td) : bool := match t with Node _ _ | Lazy _ _ | TCls _ _ _ => true | _ => false end.
+Definition td_keys (t : td) : list string := match t with Node _ ents => map fst ents | _ => [] end.
 Definition leaf_ok (o : opts) (l : leaf) : bool :=
   Nat.eqb (List.length (lcells l)) (numel (lshape l)) && negb (refused o l).
 
@@ -553,7 +601,10 @@ Fixpoint valid (o : opts) (t : td) : bool :=
   | Lazy _ ms =>
       negb (Nat.eqb (List.length ms) 0)
       && (fix all (l : list td) : bool := match l with [] => true | x :: r => valid o x && is_collection x && all r end) ms
-  | TCls c inner => negb (builtin_cls c) && valid o inner && is_collection inner
+  | TCls c nt inner =>
+      negb (builtin_cls c) && valid o inner && is_collection inner
+      (* field names are distinct, none is "_type", none is also an entry of the tensordict *)
+      && nodupb (map fst nt) && negb (smem "_type" nt) && forallb (fun kv => negb (existsb (String.eqb (fst kv)) (td_keys inner))) nt
   | NData _ _ => true
   | NStack _ => stack_ok t
   end.
